@@ -208,6 +208,8 @@ def parseOp (toks : List String) : Option Op :=
   | ["rmi", l, i, _] => do some (Op.removeIdx (← parseLoc l) (← i.toNat?))
   | ["rst", l] => do some (Op.reset (← parseLoc l))
   | ["cmp", l] => do some (Op.compress (← parseLoc l))
+  | ["rsv", l, k, n] => do some (Op.reserve (← parseLoc l) (← k.toNat?) (← n.toNat?))
+  | ["clr", l] => do some (Op.clear (← parseLoc l))
   | ["grp", d, s, k] => do some (Op.groupBy (← d.toNat?) (← parseLoc s) (← parseUnits k))
   | _ => none
 
@@ -307,6 +309,8 @@ def parseLOp (toks : List String) : Option LOp :=
   | ["rmi", l, i, _] => do some (LOp.removeIdx (← parseLLoc l) (← i.toNat?))
   | ["rst", l] => do some (LOp.reset (← parseLLoc l))
   | ["cmp", l] => do some (LOp.compress (← parseLLoc l))
+  | ["rsv", l, k, n] => do some (LOp.reserve (← parseLLoc l) (← k.toNat?) (← n.toNat?))
+  | ["clr", l] => do some (LOp.clear (← parseLLoc l))
   | _ => none
 
 /-- `<allocs>/<frees> bal=<Ledger.run verdict> doc=<the erased final forest equals the value model's>` -/
